@@ -10,6 +10,7 @@ import (
 	"strings"
 
 	"golang.org/x/tools/go/cfg"
+	"golang.org/x/tools/go/packages"
 )
 
 // RQ12 (C12): a raw rune is handed to the generated parser as a token code only when it is one of
@@ -1842,4 +1843,228 @@ func rw7RecursionBounded(w *World) {
 		}
 	}
 	w.floor("input-driven recursion cycles in experimental/parser", n, 1)
+}
+
+// RT2 (C37): a sorted permutation is applied in the direction it was built for. When a slice of
+// indexes P is initialised to the identity and then sorted by a key of table T, P[i] is the *old*
+// index of the element that is now at position i: `newT[i] = T[P[i]]` is right, but an index that
+// was stored earlier (a field such as Annotation.File) refers to the old numbering and must be
+// remapped through the inverse permutation. `idx = P[idx]` maps it the wrong way: with three or
+// more files first mentioned in an order that is not its own inverse, every annotation of the
+// serialized report points at another file. The rule finds identity-initialised index slices that
+// are sorted, and requires every later `P[e]` to be indexed by the variable of a loop that ranges
+// over P or over 0..len(P) (building the permuted table), never by a stored index.
+func rt2PermutationDirection(w *World) {
+	w.rule("RT2")
+	p := w.pkg("experimental/report")
+	if p == nil {
+		return
+	}
+	info := p.TypesInfo
+	nPerm := 0
+	for _, b := range allFuncBodies(p) {
+		if b.Lit != nil {
+			continue
+		}
+		parents := parentMap(b.Decl)
+		// identity-initialised: `P[i] = <conversion of> i` inside a loop over P
+		identity := map[types.Object]bool{}
+		sorted := map[types.Object]token.Pos{}
+		ast.Inspect(b.Body, func(x ast.Node) bool {
+			switch s := x.(type) {
+			case *ast.AssignStmt:
+				if len(s.Lhs) == 1 && len(s.Rhs) == 1 {
+					if ix, ok := s.Lhs[0].(*ast.IndexExpr); ok {
+						if pid, ok := ast.Unparen(ix.X).(*ast.Ident); ok {
+							r := ast.Unparen(s.Rhs[0])
+							if c, ok := r.(*ast.CallExpr); ok && len(c.Args) == 1 {
+								if tv, ok := info.Types[c.Fun]; ok && tv.IsType() {
+									r = ast.Unparen(c.Args[0])
+								}
+							}
+							if render(r) == render(ix.Index) {
+								if o := info.Uses[pid]; o != nil {
+									identity[o] = true
+								}
+							}
+						}
+					}
+				}
+			case *ast.CallExpr:
+				if f := callee(info, s); f != nil && f.Pkg() != nil && (f.Pkg().Path() == "slices" || f.Pkg().Path() == "sort") && strings.HasPrefix(f.Name(), "S") && len(s.Args) >= 1 {
+					switch f.Name() {
+					case "Sort", "SortFunc", "SortStableFunc", "Slice", "SliceStable", "Stable", "Strings", "Ints":
+						if pid, ok := ast.Unparen(s.Args[0]).(*ast.Ident); ok {
+							if o := info.Uses[pid]; o != nil {
+								sorted[o] = s.Pos()
+							}
+						}
+					}
+				}
+			}
+			return true
+		})
+		for o, spos := range sorted {
+			if !identity[o] {
+				continue
+			}
+			nPerm++
+			var bad []string
+			nUse := 0
+			ast.Inspect(b.Body, func(x ast.Node) bool {
+				ix, ok := x.(*ast.IndexExpr)
+				if !ok || ix.Pos() < spos {
+					return true
+				}
+				pid, ok := ast.Unparen(ix.X).(*ast.Ident)
+				if !ok || info.Uses[pid] != o {
+					return true
+				}
+				nUse++
+				// allowed: the index is the key variable of an enclosing loop over P or over a range of positions
+				okIdx := false
+				if iid, ok := ast.Unparen(ix.Index).(*ast.Ident); ok {
+					for cur := parents[ix]; cur != nil; cur = parents[cur] {
+						switch l := cur.(type) {
+						case *ast.RangeStmt:
+							if kid, ok := l.Key.(*ast.Ident); ok && info.Defs[kid] == info.Uses[iid] && info.Uses[iid] != nil {
+								okIdx = true
+							}
+						case *ast.ForStmt:
+							if as, ok := l.Init.(*ast.AssignStmt); ok && len(as.Lhs) == 1 {
+								if kid, ok := as.Lhs[0].(*ast.Ident); ok && info.Defs[kid] == info.Uses[iid] && info.Uses[iid] != nil {
+									okIdx = true
+								}
+							}
+						}
+					}
+				}
+				if !okIdx {
+					bad = append(bad, types.ExprString(ix)+" at "+w.pos(ix.Pos()))
+				}
+				return true
+			})
+			key := "permutation-direction|" + b.Label + "|" + o.Name()
+			if len(bad) == 0 {
+				w.ok(key, spos, fmt.Sprintf("the sorted permutation %s is only read position by position (%d uses)", o.Name(), nUse))
+			} else {
+				w.violation(key, spos, o.Name()+" is the identity sorted by a key, so "+o.Name()+"[i] is the old index of the element now at position i; "+strings.Join(bad, ", ")+" indexes it with a stored (old) index, which applies the permutation in the wrong direction — the inverse is needed. With three or more entries first seen in an order that is not its own inverse every remapped reference points at another entry: the decoder rejects the report or every annotation lands in the wrong file")
+			}
+		}
+	}
+	w.info("permutation-direction|count", token.NoPos, fmt.Sprintf("%d sorted identity permutations in experimental/report", nPerm))
+}
+
+// RT3 (C37): a scratch slice that is reset in a loop is not stored. `buf = buf[:0]` at the top of an
+// iteration re-uses the backing array of the previous iteration; storing buf (or a view of it —
+// buf[:n], slices.Clip(buf), which drops capacity but does not copy) into a value that outlives
+// the iteration makes all those values share one array: the edits of a later annotation overwrite
+// the edits decoded for an earlier one. A stored use must go through a copying call
+// (slices.Clone, append to a nil/fresh slice, copy into a make).
+func rt3ScratchNotStored(w *World) {
+	w.rule("RT3")
+	p := w.pkg("experimental/report")
+	if p == nil {
+		return
+	}
+	rt3Scan(w, p)
+}
+
+func rt3Scan(w *World, p *packages.Package) {
+	info := p.TypesInfo
+	nLoops, nScratch := 0, 0
+	for _, b := range allFuncBodies(p) {
+		if b.Lit != nil {
+			continue
+		}
+		parents := parentMap(b.Decl)
+		ast.Inspect(b.Body, func(x ast.Node) bool {
+			var body *ast.BlockStmt
+			switch l := x.(type) {
+			case *ast.RangeStmt:
+				body = l.Body
+			case *ast.ForStmt:
+				body = l.Body
+			default:
+				return true
+			}
+			nLoops++
+			// resets directly in this loop body: v = v[:0]
+			for _, st := range body.List {
+				as, ok := st.(*ast.AssignStmt)
+				if !ok || len(as.Lhs) != 1 || len(as.Rhs) != 1 {
+					continue
+				}
+				vid, ok := as.Lhs[0].(*ast.Ident)
+				if !ok {
+					continue
+				}
+				se, ok := ast.Unparen(as.Rhs[0]).(*ast.SliceExpr)
+				if !ok || render(se.X) != vid.Name || se.High == nil || render(se.High) != "0" {
+					continue
+				}
+				obj := info.Uses[vid]
+				if obj == nil {
+					continue
+				}
+				nScratch++
+				var bad []string
+				ast.Inspect(body, func(y ast.Node) bool {
+					id, ok := y.(*ast.Ident)
+					if !ok || info.Uses[id] != obj {
+						return true
+					}
+					// climb through views that do not copy
+					var cur ast.Node = id
+					for {
+						par := parents[cur]
+						switch pp := par.(type) {
+						case *ast.ParenExpr:
+							cur = pp
+							continue
+						case *ast.SliceExpr:
+							if pp.X == cur {
+								cur = pp
+								continue
+							}
+						case *ast.CallExpr:
+							if f := callee(info, pp); f != nil && f.Pkg() != nil && f.Pkg().Path() == "slices" && (f.Name() == "Clip" || f.Name() == "Grow") && len(pp.Args) >= 1 && pp.Args[0] == cur {
+								cur = pp
+								continue
+							}
+						}
+						break
+					}
+					switch pp := parents[cur].(type) {
+					case *ast.KeyValueExpr:
+						if pp.Value == cur {
+							bad = append(bad, "stored in the field "+render(pp.Key)+" at "+w.pos(cur.Pos()))
+						}
+					case *ast.AssignStmt:
+						for i, r := range pp.Rhs {
+							if r == cur && i < len(pp.Lhs) {
+								if _, isSel := ast.Unparen(pp.Lhs[i]).(*ast.SelectorExpr); isSel {
+									bad = append(bad, "assigned to "+types.ExprString(pp.Lhs[i])+" at "+w.pos(cur.Pos()))
+								}
+								if _, isIx := ast.Unparen(pp.Lhs[i]).(*ast.IndexExpr); isIx {
+									bad = append(bad, "assigned to "+types.ExprString(pp.Lhs[i])+" at "+w.pos(cur.Pos()))
+								}
+							}
+						}
+					case *ast.CompositeLit:
+						bad = append(bad, "stored in a composite literal at "+w.pos(cur.Pos()))
+					}
+					return true
+				})
+				key := "scratch-not-stored|" + b.Label + "|" + vid.Name
+				if len(bad) == 0 {
+					w.ok(key, as.Pos(), "the scratch slice "+vid.Name+" is reset every iteration and never stored without being copied")
+				} else {
+					w.violation(key, as.Pos(), "the scratch slice "+vid.Name+" is reset with "+vid.Name+"[:0] every iteration but "+strings.Join(bad, "; ")+" without a copy (slices.Clip only drops capacity): all values stored this way share one backing array, so what a later iteration decodes overwrites what an earlier one stored")
+				}
+			}
+			return true
+		})
+	}
+	w.info("scratch-not-stored|count|"+p.PkgPath, token.NoPos, fmt.Sprintf("%d loops, %d scratch slices reset with [:0] in %s", nLoops, nScratch, p.PkgPath))
 }
